@@ -15,9 +15,9 @@ import (
 )
 
 type caseRec struct {
-	Input  any    `json:"input"`
-	Output any    `json:"output"`
-	Coq    string `json:"-"`
+	Input  any      `json:"input"`
+	Output any      `json:"output"`
+	Coq    string   `json:"-"`
 	Tags   []string `json:"tags,omitempty"`
 }
 
@@ -101,7 +101,7 @@ func coqBool(b bool) string {
 	}
 	return "false"
 }
-func coqNat(n int) string { return fmt.Sprintf("%d%%nat", n) }
+func coqNat(n int) string        { return fmt.Sprintf("%d%%nat", n) }
 func coqList(xs []string) string { return "[" + strings.Join(xs, "; ") + "]" }
 func coqOpt(s string, present bool) string {
 	if !present {
